@@ -48,6 +48,9 @@ type flatMem struct {
 
 func (m *flatMem) Read(a uint32) byte { return m.data[a] }
 func (m *flatMem) Write(a uint32, v byte) {
+	if int(a) >= len(m.data) { // an address >= 2^24 reached the backend: the Step is recorded as failed (C08), nothing is logged
+		panic(fmt.Sprintf("bus address %#x outside the 24-bit space reached the memory backend", a))
+	}
 	m.writes = append(m.writes, [2]int{int(a), int(v)})
 	m.data[a] = v
 }
